@@ -223,10 +223,13 @@ def reference_series(n: int) -> TP:
 
 
 class SeriesBody:
-    """straight-line interpretation of _apply_coefficients into a TP, plus a parity analysis"""
+    """straight-line interpretation of _apply_coefficients into a TP, plus a parity analysis; helper methods of the same
+    class are inlined and `self.<attr>` values written by them are tracked like locals"""
 
-    def __init__(self, fn: ast.FunctionDef):
+    def __init__(self, fn: ast.FunctionDef, methods: Optional[Dict[str, ast.FunctionDef]] = None):
         self.fn = fn
+        self.methods = methods or {}
+        self.depth = 0
         params = [a.arg for a in fn.args.args]
         if params and params[0] == "self":
             params = params[1:]
@@ -243,25 +246,84 @@ class SeriesBody:
         self._run()
 
     def _run(self):
-        for st in self.fn.body:
+        r = self._block(self.fn.body, top=True)
+        if r is None and not self.problem and self.ret is None:
+            self.problem = "no return statement"
+
+    def _block(self, stmts, top=False):
+        """-> value of a `return` (TP, parity) or None"""
+        for st in stmts:
             if isinstance(st, ast.Expr) and isinstance(st.value, ast.Constant):
                 continue
-            if isinstance(st, ast.Assign) and len(st.targets) == 1 and isinstance(st.targets[0], ast.Name):
-                v = self.ev(st.value)
-                if v is None:
-                    return
-                self.env[st.targets[0].id] = v[0]
-                self.parity[st.targets[0].id] = v[1]
+            if isinstance(st, ast.Expr) and isinstance(st.value, ast.Call):
+                if self.ev(st.value, allow_none=True) is None and self.problem:
+                    return None
                 continue
-            if isinstance(st, ast.Return) and st.value is not None:
+            if isinstance(st, (ast.Assign, ast.AnnAssign)) and (isinstance(st, ast.AnnAssign) or len(st.targets) == 1):
+                tgt = st.targets[0] if isinstance(st, ast.Assign) else st.target
+                if st.value is None:
+                    continue
+                name = tgt.id if isinstance(tgt, ast.Name) else (f"self.{tgt.attr}" if isinstance(tgt, ast.Attribute) and core.src(tgt.value) == "self" else None)
+                if name is not None:
+                    v = self.ev(st.value)
+                    if v is None:
+                        return None
+                    self.env[name] = v[0]
+                    self.parity[name] = v[1]
+                    continue
+            if isinstance(st, ast.Return):
+                if st.value is None:
+                    return (TP.const(0), "zero")
                 v = self.ev(st.value)
                 if v is None:
-                    return
-                self.ret, self.ret_parity, self.ret_node = v[0].reduce(), v[1], st
-                return
-            self.problem = f"statement `{core.src(st)[:60]}` is not a plain assignment or return"
-            return
-        self.problem = "no return statement"
+                    return None
+                if top:
+                    self.ret, self.ret_parity, self.ret_node = v[0].reduce(), v[1], st
+                return v
+            self.problem = f"statement `{core.src(st)[:60]}` is not a plain assignment, helper call or return"
+            return None
+        return None
+
+    def _inline(self, name: str, args: List[ast.expr]):
+        fn = self.methods.get(name)
+        if fn is None or self.depth > 3:
+            self.problem = f"helper method {name} not found"
+            return None
+        params = [a.arg for a in fn.args.args][1:]
+        vals = []
+        for a in args:
+            if isinstance(a, ast.Name) and a.id == self.C:
+                vals.append((TP.const(0), "even"))     # the coefficient table itself: only ever subscripted
+                continue
+            v = self.ev(a)
+            if v is None:
+                return None
+            vals.append(v)
+        saved_env, saved_par = dict(self.env), dict(self.parity)
+        saved_phi, saved_C = self.phi, self.C
+        for p_, a, v in zip(params, args, vals):
+            self.env[p_] = v[0]
+            self.parity[p_] = v[1]
+            # the coefficient table keeps its role when handed on under another name
+            if isinstance(a, ast.Name) and a.id == saved_C:
+                self.C = p_
+            if isinstance(a, ast.Name) and a.id == saved_phi:
+                self.phi = p_
+        self.depth += 1
+        try:
+            r = self._block(fn.body)
+        finally:
+            self.depth -= 1
+            self.phi, self.C = saved_phi, saved_C
+            # locals of the helper disappear, instance attributes stay
+            for k in list(self.env):
+                if not k.startswith("self.") and k not in saved_env:
+                    del self.env[k]
+            for k, v in saved_env.items():
+                if not k.startswith("self."):
+                    self.env[k] = v
+                    self.parity[k] = saved_par[k]
+        return r
 
     @staticmethod
     def _par_mul(a: str, b: str) -> str:
@@ -277,7 +339,18 @@ class SeriesBody:
             return a
         return a if a == b else "none"
 
-    def ev(self, e: ast.expr) -> Optional[Tuple[TP, str]]:
+    def ev(self, e: ast.expr, allow_none: bool = False) -> Optional[Tuple[TP, str]]:
+        if isinstance(e, ast.Attribute) and core.src(e.value) == "self":
+            k = f"self.{e.attr}"
+            if k in self.env:
+                return self.env[k], self.parity[k]
+            self.problem = f"instance attribute {k} read before it is computed from the argument (value of an earlier call?)"
+            return None
+        if isinstance(e, ast.Call) and isinstance(e.func, ast.Attribute) and core.src(e.func.value) == "self" and e.func.attr in self.methods:
+            r = self._inline(e.func.attr, e.args)
+            if r is None and allow_none and not self.problem:
+                return (TP.const(0), "zero")
+            return r
         if isinstance(e, ast.Constant) and isinstance(e.value, (int, float)) and not isinstance(e.value, bool):
             return TP.const(Fraction(e.value)), "even"
         if isinstance(e, ast.Name):
@@ -392,7 +465,10 @@ def run(ctx):
     where = core.loc(AUTH, fn)
 
     # ---- C15.1 ---------------------------------------------------------------------------------------------
-    sb = SeriesBody(fn)
+    cls_node = [n for n in tree.body if isinstance(n, ast.ClassDef) and n.name == "AuthalicProjection"]
+    methods = {m.name: m for m in cls_node[0].body if isinstance(m, ast.FunctionDef)} if cls_node else {}
+    sb = SeriesBody(fn, methods)
+    check_result_memo(ctx, methods)
     order = None
     if sb.problem or sb.ret is None:
         ctx.unk("C15.1", "AuthalicProjection._apply_coefficients computes phi + sum C_k sin(2(k+1) phi)", where, f"body not modelled: {sb.problem}")
@@ -533,6 +609,35 @@ def run(ctx):
                f"the exact inverse is {(1 + slope_inv):.4f}-Lipschitz; bound {bound:.2e}")
     ctx.analysed.update({"order": order, "digits": digits, "fourier_orders": kmax, "forward_exact": fwd[:8], "inverse_exact": inv[:8],
                          "functions": ["AuthalicProjection._apply_coefficients", "forward", "inverse", "from_lonlat", "to_lonlat", "deg_to_rad", "rad_to_deg"]})
+
+
+def check_result_memo(ctx, methods: Dict[str, ast.FunctionDef]):
+    """A memo of conversion results must be keyed by everything the result depends on: the angle AND the coefficient table."""
+    for name, fn in methods.items():
+        for n in ast.walk(fn):
+            if isinstance(n, ast.Assign) and any(isinstance(t, ast.Subscript) for t in n.targets):
+                t = [t for t in n.targets if isinstance(t, ast.Subscript)][0]
+                base = t.value
+                defs = {s_.targets[0].id: s_.value for s_ in ast.walk(fn) if isinstance(s_, ast.Assign) and isinstance(s_.targets[0], ast.Name)}
+                root = defs.get(base.id) if isinstance(base, ast.Name) else base
+                if not (isinstance(root, ast.Attribute) and core.src(root.value) == "self"):
+                    continue
+                params = [a.arg for a in fn.args.args][1:]
+                from .shared_state import derive_vars, _names
+                key_vars = derive_vars(fn, _names(t.slice)) & set(params)
+                val_vars = derive_vars(fn, _names(n.value)) & set(params)
+                # the value may also depend on parameters through statements that are not assignments to the stored name;
+                # here every parameter of the evaluator enters the result
+                if name in ("_apply_coefficients",):
+                    val_vars |= set(params)
+                missing = val_vars - key_vars
+                where = core.loc(AUTH, n)
+                if missing:
+                    ctx.bad("C15.8", f"AuthalicProjection.{name} remembers results in self.{root.attr} keyed by `{core.src(t.slice)}` only", where,
+                            f"the stored value depends on {sorted(missing)} as well: after a conversion in one direction the same angle converted in the other "
+                            f"direction returns the remembered value of the wrong table (error up to |C_1| = 2.2e-3 rad)")
+                else:
+                    ctx.ok("C15.8", f"AuthalicProjection.{name}: result memo self.{root.attr} keyed by everything the result depends on", where, core.src(n))
 
 
 def fold_const(e: ast.expr) -> Optional[float]:
